@@ -123,8 +123,8 @@ func (f *StreamForwarder) Run() error {
 	streamTracker := GetGlobalStreamTracker()
 	sourceShard := ClusterShardIDtoString(f.sourceClusterShardID)
 	targetShard := ClusterShardIDtoString(f.targetClusterShardID)
-	streamTracker.RegisterStream(f.streamID, "StreamWorkflowReplicationMessages", "forwarder", sourceShard, targetShard, StreamRoleForwarder)
-	defer streamTracker.UnregisterStream(f.streamID)
+	trackerEntry := streamTracker.RegisterStream(f.streamID, "StreamWorkflowReplicationMessages", "forwarder", sourceShard, targetShard, StreamRoleForwarder)
+	defer streamTracker.UnregisterStreamEntry(f.streamID, trackerEntry)
 
 	// When one side of the stream dies, we want to tell the other side to hang up
 	// (see https://stackoverflow.com/questions/68218469/how-to-un-wedge-go-grpc-bidi-streaming-server-from-the-blocking-recv-call)
